@@ -102,6 +102,24 @@ fn check_one(b: [u8; 4], p: &mut Part) -> Option<[u8; 3]> {
             }
         },
     }
+    if let (Shape::Mod, Ok(v)) = (shape, &r) {
+        // mods and built-ins are never confused in print either: whatever width, alignment or flag the caller formats
+        // with, a mod never prints as a built-in car's name (mod ids are hexadecimal: 0xBF1 spells one)
+        let id = u32::from_le_bytes(b);
+        if id < 0x1000 || b[0] % 64 == 0 {
+            let forms = [format!("{}", v), format!("{:3}", v), format!("{:>3}", v), format!("{:<3}", v), format!("{:1}", v), format!("{:0}", v), format!("{:#}", v), format!("{:03}", v), format!("{:.3}", v)];
+            for (k, f) in forms.iter().enumerate() {
+                let t = f.trim();
+                if crate::refspec::BUILTIN_CARS.iter().any(|n| n.eq_ignore_ascii_case(t)) {
+                    p.violation(
+                        "C13/mod-prints-as-builtin",
+                        format!("Mod({:#x}) (wire {}) prints as {:?} under format form #{k} ({{}}, {{:3}}, {{:>3}}, {{:<3}}, {{:1}}, {{:0}}, {{:#}}, {{:03}}, {{:.3}}): a built-in car's name", id, hex(&b), f),
+                        json!({"bytes": hex(&b), "form": k}),
+                    );
+                }
+            }
+        }
+    }
     if let Ok(v) = &r {
         // the classification helpers must agree with the wire shape: a mod is a mod, everything else is not
         if v.is_mod() != (shape == Shape::Mod) || v.is_builtin() == v.is_mod() {
